@@ -132,7 +132,7 @@ def run_table(case):
     # weak qualifying evidence: a few good reads of a catalogued variant (a fraction that may lie between the stage thresholds)
     nweak = 0
     weak_dir = False
-    for j, n in case.get("weak", []):
+    for j, n in case.get("weak", []) if sites else []:
         p, o = sites[j % len(sites)]
         if cn.position_cn(p) > 0 and o not in raw.get(p, {}):
             raw.setdefault(p, {})[o] = [(case["minmq"], case["minq"])] * n
